@@ -69,7 +69,7 @@ for name, t in terms(D):
 
 # ---------------------------------------------------------------- (2) select against the reference
 NAMES = ["a", "b"]
-ATTRS = [(), (1,), (1, 2)]
+ATTRS = [(), (1,), (1, 2), ("x",)]        # "x": numeric comparisons raise on it - a predicate that raises counts as not matching
 
 
 def forests(n):
@@ -108,8 +108,11 @@ QUERIES = [
     ("startswith('a')", startswith("a"), name_is("a")),
     ("~startswith('a')", ~startswith("a"), lambda n: n._name != "a"),
     ("eq('a') | eq('b')", eq("a") | eq("b"), lambda n: True),
-    ("(None, lt(2))", (None, lt(2)), lambda n: any(a < 2 for a in n.attrs)),
+    ("(None, lt(2))", (None, lt(2)), lambda n: any(isinstance(a, int) and a < 2 for a in n.attrs)),
     ("ieq('A')", ieq("A"), name_is("a")),
+    ("(None, ~lt(2))", (None, ~lt(2)), lambda n: any(isinstance(a, int) and not a < 2 for a in n.attrs)),
+    ("(None, ~lt(2) & ~lt(0))", (None, ~lt(2) & ~lt(0)), lambda n: any(isinstance(a, int) and not a < 2 and not a < 0 for a in n.attrs)),
+    ("(None, ~(lt(2) | lt(0)))", (None, ~(lt(2) | lt(0))), lambda n: any(isinstance(a, int) and not (a < 2 or a < 0) for a in n.attrs)),
     ("callable", lambda name: name == "b", name_is("b")),
     ("raising callable", raising, lambda n: False),
     ("(None, raising)", (None, raising), lambda n: False),
